@@ -4,11 +4,11 @@ CONSTANTS
   MaxRedirect = 65535
   MaxHeader = 255
   Deviations = {}
-  Bug = "ThresholdOffByOne"
+  Bug = "LabelsMerged"
   Mode = "lk"
   NC = 2
   MaxBody = 2
-  MaxPrefix = 1
+  MaxPrefix = 0
   SkipBytes = {0, 128}
   Variants = {0}
   DimVals = {0, 3}
